@@ -16,7 +16,8 @@ def run(chk, replay=None):
                        "dimension, integrands {1, x_first, x_last, indicator of the first old bins}; hep::plain as the one-bin case, d = 1..3; McLat: "
                        "hep::multi_channel with 2 channels given by grids [0,k/4,1] x weight vectors over {0,1,2}^2 (disabled channels) x common jacobian factor "
                        "{1/2, 1, 3} on a 24 x 2S lattice, and 3 channels with weights clamped by a minimum weight; Adapt: lattice iterations on the grids reached "
-                       "after 1..4 adaptive iterations on peaked integrands; non-trivial = non-uniform grid or unequal weights")
+                       "after 1..4 adaptive iterations on peaked integrands; McAdapt: hep::multi_channel resumed for a 2064 x 2064 lattice iteration after 1..3 "
+                       "adaptive iterations with beta in {0, 1/4, 1/2, 1}, minimum weight in {0, 0.05, 0.1}, 3-4 channels of which one is enabled but never contributes; non-trivial = non-uniform grid or unequal weights")
     chk.model("MC_Measure", workers=4, what="MC_Measure: lattice sum = integral for all grids over k/4 (2 and 3 bins), all weight vectors over {0,1,2}^2; unweighted density "
                                             "sum is not measure preserving")
     exe = vt.build(*BUILDS[0][0])
@@ -30,10 +31,12 @@ def run(chk, replay=None):
             chk.nontrivial(("v", e["T"], tuple(e["gx"]), e["f"], e["M"]))
         elif e["e"] == "McLat" and (len(set(e["w"])) > 1 or e["exactWeights"] == 0):
             chk.nontrivial(("m", k))
+        elif e["e"] == "McAdapt":
+            chk.nontrivial(("ma", e["run"], e["f"]))
         elif e["e"] == "Adapt":
             chk.nontrivial(("a", e["run"], e["it"], e["f"]))
-    chk.sample_each(rows, ("VLat", "McLat", "Adapt"))
-    ok, matched, res = chk.validate("Trace_C01", trace, need_actions=("VLat", "McLat", "Adapt"), timeout=1200)
+    chk.sample_each(rows, ("VLat", "McLat", "Adapt", "McAdapt"))
+    ok, matched, res = chk.validate("Trace_C01", trace, need_actions=("VLat", "McLat", "Adapt", "McAdapt"), timeout=1200)
     if not ok:
         bad = rows[matched] if matched < len(rows) else None
         chk.violation("C01:measure", trace, "event %d rejected by Trace_C01: %s" % (matched + 1, str(bad)[:500]))
